@@ -35,7 +35,9 @@ Inductive fact :=
 | FNode (repo uu : string) (v : N) (br : string) (locked : bool) (ps cs : list N)
 | FRepoOf (uu : string) (root : option string)                    (* GET /api/repo/uu/info -> Root *)
 | FAddr (q : string) (r : option string)                          (* MatchingUUID(q) *)
-| FBV (repo name : string) (r : option (list string)).            (* branch-versions *)
+| FBV (repo name : string) (r : option (list string))             (* branch-versions *)
+| FU2V (uu : string) (r : option N)                               (* datastore.VersionFromUUID *)
+| FV2U (v : N) (r : option string).                               (* datastore.UUIDFromVersion *)
 
 Inductive delta := DSet (f : fact) | DDel (f : fact).   (* DDel: only the key fields are read *)
 
@@ -46,6 +48,8 @@ Definition same_key (a b : fact) : bool :=
   | FRepoOf x _, FRepoOf x' _ => String.eqb x x'
   | FAddr q _, FAddr q' _ => String.eqb q q'
   | FBV r n _, FBV r' n' _ => String.eqb r r' && String.eqb n n'
+  | FU2V x _, FU2V x' _ => String.eqb x x'
+  | FV2U v _, FV2U v' _ => N.eqb v v'
   | _, _ => false
   end.
 
@@ -119,6 +123,8 @@ Definition fact_ok (s : state) (f : fact) : bool :=
     | Some None => match r with None => true | _ => false end
     | None => false
     end
+  | FU2V x r => opt_eqb N.eqb (st_u2v s !! x) r
+  | FV2U v r => opt_eqb String.eqb (st_v2u s !! v) r
   end.
 
 Definition count_nodes_of (key : string) (fs : list fact) : nat :=
@@ -203,7 +209,8 @@ Definition acyclic_b (fs : list fact) : bool :=
   forallb (fun '(k, _, _) => let rn := nodes_of k ns in peel (length rn) rn) (orepos fs).
 
 (* 4: a UUID and a version id name one node; no empty UUID; a UUID resolves to the repo that holds it
-      (or is refused because it is a proper prefix of another UUID: prefix matching is ambiguous) *)
+      (or is refused because it is a proper prefix of another UUID: prefix matching is ambiguous);
+      uuidToVersion and versionToUUID hold exactly the (UUID, version id) pairs of the nodes *)
 Definition ids_unique_b (fs : list fact) : bool :=
   let ns := onodes fs in
   nodup_by String.eqb (List.map on_uuid ns) && nodup_by N.eqb (List.map on_v ns) &&
@@ -218,6 +225,10 @@ Definition ids_unique_b (fs : list fact) : bool :=
                   end
       | None => match r with None => true | Some _ => existsb (fun m => String.prefix x (on_uuid m)) ns end
       end
+    | FU2V x (Some v) => existsb (fun n => String.eqb (on_uuid n) x && N.eqb (on_v n) v) ns
+    | FV2U v (Some x) => existsb (fun n => String.eqb (on_uuid n) x && N.eqb (on_v n) v) ns
+    | FU2V x None => negb (existsb (fun n => String.eqb (on_uuid n) x) ns)
+    | FV2U v None => negb (existsb (fun n => N.eqb (on_v n) v) ns)
     | _ => true end) fs.
 
 (* 5: every parent is committed *)
